@@ -19,8 +19,10 @@ respects this for lock `l`.  `HoldsW/HoldsR l tr i t`: thread `t` holds `l` excl
 state reached just before event `i`.
 
 What this model does NOT contain: the Go runtime and scheduler, `sync.WaitGroup` (its Add/Wait protocol is
-not modelled at all), `sync.Pool`, channel sends/receives other than close-observing receives, the
-internals of `sync.Map`, and any access made through `unsafe` or reflection.
+not modelled at all; the session's two grace counters are no longer of that type but of the package's own
+`graceWaitGroup` — a counter `n` and a channel `zero` under the mutex `mu`, whose accesses are ordinary rows of the
+site table and whose wake-up is a `chClose`/`chRecv` pair), `sync.Pool`, channel sends/receives other than
+close-observing receives, the internals of `sync.Map`, and any access made through `unsafe` or reflection.
 -/
 namespace Teleport.Conc
 
@@ -283,8 +285,14 @@ def guardOf (f : String) : Option Discipline :=
   | "session.closeNotifyCh" => some (.initOnly ["newSession"])
   | "session.redialForClientLocked" => some (.initOnly ["newSession", "peer.Dial"])
   | "session.protoFuncs" => some (.exempt "written by ModifySocket, which is documented for the PostDial/PostAccept phase only (PreSession), before the session is shared")
-  | "session.graceCtxWaitGroup" => some (.mutex "session.graceCtxMutex" [] [])
-  | "session.graceCallCmdWaitGroup" => some (.mutex "session.lock" [] ["session.closeLocked"])
+  -- the two grace counters are VALUES of type graceWaitGroup inside the session: the field itself is never
+  -- assigned (zero value from newSession's literal); Add/Done/Wait work on it in place and synchronise on the
+  -- counter's own mutex (next two lines).  Were the type sync.WaitGroup again, every Add/Wait would be a W row of
+  -- the session field (srcfacts `guardWaitGroupPatterns`) and violate this discipline.
+  | "session.graceCtxWaitGroup" => some (.initOnly ["newSession"])
+  | "session.graceCallCmdWaitGroup" => some (.initOnly ["newSession"])
+  | "graceWaitGroup.n" => some (.mutex "graceWaitGroup.mu" [] [])
+  | "graceWaitGroup.zero" => some (.mutex "graceWaitGroup.mu" [] [])
   | "callCmd.stat" => some (.donePublished "callCmd.mu" "callCmd.@done" [] cmdHeld (cmdAfterDone ++ cmdCallerOrdered))
   | "callCmd.result" => some (.donePublished "callCmd.mu" "callCmd.@done" ["session.AsyncCall"] cmdHeld (cmdAfterDone ++ cmdCallerOrdered))
   | "callCmd.inputMeta" => some (.donePublished "callCmd.mu" "callCmd.@done" [] cmdHeld (cmdAfterDone ++ cmdCallerOrdered))
@@ -354,12 +362,6 @@ def Known.matches (k : Known) (s : Site) : Bool := k.field == s.field && k.fn ==
 race-detector report; (`field`, `fn`, `kind`) = the violating site of the regenerated table it corresponds to;
 `confirmed` = the detector exhibited it in one of `scenarios` during the pre-study of this check. -/
 def knownRacy : List Known := [
-  ⟨"c14:race:session.go:session.graceCtxWait|session.startReadAndHandle", "session.graceCtxWaitGroup", "session.startReadAndHandle", "W", true, ["close", "redial", "thrift"],
-   "graceCtxWaitGroup.Add(1) in the read loop is not ordered with Wait in Close (graceCtxWait): sync.WaitGroup misuse"⟩,
-  ⟨"c14:race:peer.go:peer.getContext|session.graceCtxWait", "session.graceCtxWaitGroup", "peer.getContext", "W", true, ["close", "redial"],
-   "graceCtxWaitGroup.Add(1) in getContext (Push) is not ordered with Wait in Close/readDisconnected; also crashes the process: panic 'sync: WaitGroup is reused before previous Wait has returned'"⟩,
-  ⟨"c14:race:session.go:session.AsyncCall|session.closeLocked", "session.graceCallCmdWaitGroup", "session.AsyncCall", "W", true, ["close"],
-   "graceCallCmdWaitGroup.Add(1) in AsyncCall is not ordered with Wait in closeLocked"⟩,
   ⟨"c14:race:binary_proto.go:tBinaryProto.Pack|tBinaryProto.Unpack", "tBinaryProto.tProtocol", "tBinaryProto.binaryUnpack", "R", true, ["thrift"],
    "one thrift THeaderProtocol object is used by Pack under packLock and by Unpack under unpackLock"⟩,
   ⟨"c14:race:binary_proto.go:tBinaryProto.Pack|tBinaryProto.Unpack", "tBinaryProto.tProtocol", "tBinaryProto.Pack", "R", true, ["thrift"],
